@@ -1,4 +1,5 @@
 pub mod c01;
+pub mod c02;
 pub mod c03;
 pub mod c04;
 pub mod c05;
@@ -14,6 +15,7 @@ use crate::runner::Property;
 pub fn by_id(id: &str) -> Option<Property> {
     Some(match id {
         "C01" => c01::property(),
+        "C02" => c02::property(),
         "C03" => c03::property(),
         "C04" => c04::property(),
         "C05" => c05::property(),
@@ -28,4 +30,4 @@ pub fn by_id(id: &str) -> Option<Property> {
         _ => return None,
     })
 }
-pub const ALL: &[&str] = &["C01", "C03", "C04", "C05", "C06", "C07", "C08", "C09", "C10", "C11", "C16", "C17"];
+pub const ALL: &[&str] = &["C01", "C02", "C03", "C04", "C05", "C06", "C07", "C08", "C09", "C10", "C11", "C16", "C17"];
